@@ -457,7 +457,11 @@ func (w *writer) obj(n *node) {
 	case kReal:
 		w.tok(w.realBytes(n), true, true)
 	case kStr:
-		w.str(n.s)
+		if n.lit != nil {
+			w.tok(n.lit, false, false) // spelled by the generator (raweol.go)
+		} else {
+			w.str(n.s)
+		}
 	case kName:
 		w.tok(w.nameBytes(n.s), false, true)
 	case kArr:
